@@ -94,6 +94,12 @@ def scenarios(tier):
     L.append((SC.scn("noisy-unchanged-dependencies-shown-with-u-j1", w, ["redo --no-color top"], visible=VIS, log_mode=True,
                      setup=[["ifchange", ["top"]]], post_cmds=post + [["redo-log", "-r", "-u", "--no-color", "top"]],
                      times={"a": 0, "b": 0, "c": 0}, post_times=[None, None, {}]), 0))
+    qw = World("noisy-quiet-dep", {"s": ["0", "1"]},
+               {"top.do": [S(deps=["q"], noise=1)], "q.do": [S(deps=["s"])]},
+               ["top", "q"], ["top"])
+    L.append((SC.scn("noisy-unchanged-quiet-dependency-shown-with-u-j1", qw, ["redo --no-color top"], visible=VIS, log_mode=True,
+                     setup=[["ifchange", ["top"]]], post_cmds=post + [["redo-log", "-r", "-u", "--no-color", "top"]],
+                     times={"q": 0}, post_times=[None, None, {"q": 0}]), 0))
     # every script writes a line that parses as a record naming a file redo knows nothing about: in-band signalling, so the
     # line itself is shown as a header -- but the viewer must survive it and go on showing everything else
     L.append((SC.scn("noisy-record-like-line-j1", noisy_world(2), ["redo --no-color top"], visible=VIS, log_mode=True,
